@@ -238,6 +238,14 @@ def gen_index(rng, n, kind):
     if kind == "nonunique":
         return {"kind": "nonunique", "name": None,
                 "values": [rng.randint(0, max(1, n // 2)) for _ in range(n)]}
+    if kind == "nearsorted":
+        # unnamed unique integers 0..n-1, sorted but for a few swaps of interior neighbours:
+        # a partition may start with 0 and end with len-1 without being positional
+        vals = list(range(n))
+        for i in range(1, n - 2):
+            if rng.random() < 0.5:
+                vals[i], vals[i + 1] = vals[i + 1], vals[i]
+        return {"kind": "nearsorted", "name": None, "values": vals}
     if kind == "str":
         vals = [f"k{i:02d}" for i in range(n)]
         rng.shuffle(vals)
